@@ -1,6 +1,7 @@
 import Driver.Util
 import Bifrost.Model.Framing
 import Bifrost.Model.Packets
+import Bifrost.Model.PacketsEnd
 namespace Driver.Framing
 open Bifrost Bifrost.Framing Bifrost.Packets Driver
 
@@ -25,12 +26,21 @@ def showReadRes : ReadRes → String
 def kvWriters (args : List String) (n : Nat) : Option (List (List Bytes)) :=
   (List.range n).mapM fun i => kvBytesList args s!"w{i}"
 
+/-- optional `last=1`: the reader returns its final bytes together with the error -/
+def kvLast (args : List String) : Bool := (kvNat args "last").getD 0 != 0
+
+def showRecvRes : RecvRes → String
+  | .msg m => hexOrDash m
+  | .eof => "EOF"
+  | .unexpectedEof => "UEOF"
+  | .tooLarge => "LARGE"
+
 def handle (op : String) (args : List String) : Option String :=
   match op with
   | "hdr" => do
     let max ← kvNat args "max"
     let chunks ← kvBytesList args "chunks"
-    match readHeader max chunks with
+    match readHeaderE max chunks (kvLast args) with
     | .ok (pid, r, alloc) => some s!"ok pid={hexOrDash pid} rest={hexOrDash r.flatten} alloc={alloc}"
     | .error e => some s!"err {errName e}"
   | "marshal" => do
@@ -43,15 +53,22 @@ def handle (op : String) (args : List String) : Option String :=
     let max ← kvNat args "max"
     let chunks ← kvBytesList args "chunks"
     let bufs ← kvNatList args "bufs"
-    let (ps, e) := rxPump max (totalLen chunks + 1) chunks
+    let (ps, e) := rxPumpE max (kvLast args) (totalLen chunks + 1) chunks
     -- ReadFrom with the given buffer sizes (cyclic: missing sizes mean "large enough")
     let reads := (ps.zipIdx).map fun (p, i) => readFrom (bufs.getD i 1000000000) p
     some s!"pkts={showReads reads} end={endName e}"
   | "sess" => do
     let max ← kvNat args "max"
     let chunks ← kvBytesList args "chunks"
-    let (ps, e) := recvMsgs max (totalLen chunks + 1) chunks
+    let (ps, e) := recvMsgsE max (kvLast args) (totalLen chunks + 1) chunks
     some s!"msgs={showBytesList ps} end={endName e}"
+  | "sesscalls" => do
+    -- n successive RecvMsg calls, the caller calling again after every error
+    let max ← kvNat args "max"
+    let chunks ← kvBytesList args "chunks"
+    let n ← kvNat args "n"
+    let rs := recvCalls max n ⟨chunks, kvLast args, false⟩
+    some s!"calls={if rs.isEmpty then "_" else ",".intercalate (rs.map showRecvRes)}"
   | "frame" => do
     let p ← kvBytes args "p"
     some s!"ok {hexOrDash (frame p)}"
